@@ -15,8 +15,14 @@ MODES = "ZAUDEH"
 FFLAGS = ["-", "+", "0", "+0", "<", "^", ">", "*<", "*^", "*>", "+*^", "0<"]
 MARKERS = {10: "eE@", 2: "bB@", 8: "oO@", 16: "hH@", 3: "@", 36: "@"}
 # base pairs instantiated in the harness
-PAIRS = [(2, 10), (10, 2), (2, 16), (16, 2), (2, 8), (8, 2), (10, 16), (16, 10), (3, 10), (10, 3), (2, 3), (3, 2), (36, 10), (10, 36), (8, 16)]
-PAIRS_CHK = [(2, 10), (10, 2), (10, 16), (16, 10), (3, 10), (10, 3), (2, 3), (3, 2), (36, 10), (10, 36)]
+# round 6: COMM = commensurable bases (powers of a common root) that are NOT powers of one another — `ilog_exact` must answer 0 for
+# them (its loop ends with pow > n), so they take the general branches although every digit boundary of one is a bit/trit boundary
+# of the other; NESTED = powers with a root other than 2 / a composite smaller base (ilog_exact answers n >= 2)
+COMM_PAIRS = [(4, 32), (32, 4), (4, 8), (8, 4), (16, 8), (9, 27), (27, 9)]
+NESTED_PAIRS = [(4, 16), (16, 4), (3, 9), (9, 3), (27, 3)]
+PAIRS = [(2, 10), (10, 2), (2, 16), (16, 2), (2, 8), (8, 2), (10, 16), (16, 10), (3, 10), (10, 3), (2, 3), (3, 2), (36, 10), (10, 36), (8, 16)] \
+    + COMM_PAIRS + NESTED_PAIRS
+PAIRS_CHK = [(2, 10), (10, 2), (10, 16), (16, 10), (3, 10), (10, 3), (2, 3), (3, 2), (36, 10), (10, 36), (4, 32), (32, 4), (27, 9)]
 THRESH = 38          # THRESHOLD_SMALL_EXP for 64-bit words
 
 
@@ -676,6 +682,51 @@ def gen_same_base(rng, tier):
             if rng.random() < 0.3:
                 yield Case("f.with_base", [dec(b), farg(b, s, e, max(prec, d), mode)], nontrivial=False)
 
+def gen_commensurable(rng, tier):
+    """`ilog_exact(n, base)` (float/src/utils.rs) decides between the lossless digit-regrouping shortcut of convert_base / the
+    `p*n`, `p/n` precision of with_base and the general branches.  Its answer is fixed by `pow == n` after the loop `while pow < n`:
+    the classes are (a) n a proper power of base (NESTED_PAIRS, plus 2<->8/16 in PAIRS), (b) n and base powers of a common root but
+    not of one another (COMM_PAIRS: the loop overshoots), (c) unrelated.  For (a)/(b): every exponent -7..7 (all residues modulo the
+    digit-width ratio, both signs) with 1..3-digit and long significands, all modes, through with_base (derived precision) and
+    with_base_and_precision (p around the digit count of the result)."""
+    quick = tier == "quick"
+    for (b, nb) in COMM_PAIRS + NESTED_PAIRS:
+        for e0 in range(-7, 8):
+            for mode in (rng.sample(MODES, 2) if quick else MODES):
+                for nd in ((1, 3) if quick else (1, 2, 3, 7, 30)):
+                    s = rng.randrange(b ** (nd - 1), b ** nd) * rng.choice([1, -1])
+                    s, e = norm(s, e0, b)
+                    if abs(e) > THRESH:
+                        continue
+                    d = ndigits(s, b)
+                    yield Case("f.with_base", [dec(nb), farg(b, s, e, d + rng.choice([0, 1, 6]), mode)], nontrivial=e != 0)
+                    from fractions import Fraction
+                    dn = max(1, ndigits(int(abs(s) * Fraction(b) ** e) or 1, nb) if e >= 0 else ndigits(abs(s), nb))
+                    p = rng.choice([1, max(1, dn - 1), dn, dn + 1, dn + abs(e) + 4, 3 * dn + 8])
+                    yield Case("f.with_base_prec", [dec(nb), dec(p), farg(b, s, e, d, mode)], nontrivial=e != 0)
+
+
+# round 6: base pairs at the top of the Word range (instantiated in the harness): the powers of the smaller base leave the Word
+# before they reach the larger one — `pow *= base` of ilog_exact (lo^k < hi and lo^(k+1) >= 2^64)
+HUGE_PAIRS = [(2 ** 63 + 1, 2), (2, 2 ** 63 + 1), (2 ** 64 - 1, 3), (2 ** 32 + 1, 2 ** 32)]
+
+
+def gen_huge_base(rng, tier):
+    """with_base / with_base_and_precision between HUGE_PAIRS: exponents -3..3, 1..3-digit significands, all modes."""
+    quick = tier == "quick"
+    for (b, nb) in HUGE_PAIRS:
+        for e0 in range(-3, 4):
+            for mode in (rng.sample(MODES, 2) if quick else MODES):
+                for nd in ((1, 2) if quick else (1, 2, 3)):
+                    s = rng.randrange(b ** (nd - 1), b ** nd) * rng.choice([1, -1])
+                    s, e = norm(s, e0, b)
+                    d = ndigits(s, b)
+                    yield Case("f.with_base", [dec(nb), farg(b, s, e, d + rng.choice([0, 2]), mode)], nontrivial=True)
+                    dn = max(1, ndigits(abs(s) * b ** max(e, 0), nb))
+                    p = rng.choice([1, max(1, dn - 1), dn, dn + 1, 2 * dn + 70])
+                    yield Case("f.with_base_prec", [dec(nb), dec(p), farg(b, s, e, d, mode)], nontrivial=True)
+
+
 def generate(rng, tier):
     yield from gen_parse(rng, tier)
     yield from gen_fmt(rng, tier)
@@ -688,6 +739,8 @@ def generate(rng, tier):
     yield from gen_extreme(rng, tier)
     yield from gen_alphabet(rng, tier)
     yield from gen_same_base(rng, tier)
+    yield from gen_commensurable(rng, tier)
+    yield from gen_huge_base(rng, tier)
 
 
 def _parse_farg(a):
@@ -787,7 +840,9 @@ RULE = ("parse: the documented grammar as a generator for bases {2,3,8,10,16,36}
         "UTF-8, overflowing exponents) and random single-edit mutations of valid literals. fmt: floats with 1..200 digit "
         "significands, exponents 0..+-400, all six modes, Display / LowerExp / UpperExp with precision in {none,0,1,2,3,-exp+-1,30}, "
         "width, `+`; half-way and all-nines significands aimed at the rounding and its carry. rt: print then parse. conversions: "
-        "15 base pairs x 6 modes, explicit and derived precision, exponents within the exact-evaluation threshold (|e| <= 38) and "
+        "27 base pairs x 6 modes (round 6: + bases that are powers of a common root but not of one another 4<->32 4<->8 16->8 9<->27, + nested powers "
+        "with another root 4<->16 3<->9 27->3; directed class gen_commensurable: every exponent -7..7 for those; gen_huge_base: 2^63+1<->2, 2^64-1->3, "
+        "2^32+1->2^32, where the powers of the smaller base leave the Word inside ilog_exact), explicit and derived precision, exponents within the exact-evaluation threshold (|e| <= 38) and "
         "any exponent for power-related bases, plus exactly representable values with |e| in 20..38 (18..38 thorough) for every non "
         "power-related pair (must come back Exact); tiny non-zero values under {:.N} for all six modes and both signs (and, negative ones rounding to -0, with width/fill/alignment/zero flag); the ln/exp branch (|e| in 39..300) is judged by exact rational arithmetic in the "
         "harness. with_precision (and with_base_and_precision on the same shapes): B^k+-small significands up to 60 words (B^k+small has k+1 digits), "
@@ -859,6 +914,11 @@ REFINED = [
     "(Dashu.Gen.FloatText) and proved equal to the model's isScaleMarker / hasHexPrefix / fmtSci / fmtRadixTrait (scale_markers_regenerated, "
     "fmt_trait_table_regenerated): a change of a marker, base or flag in the source breaks the build of Props/C08",
     "with_precision never returns more than p digits when the precision shrinks (with_precision_digits)",
+    "Tie A (round 6): ilog_exact of float/src/utils.rs (early returns, loop, tail; also the checked_mul form of the proposed fix) is regenerated "
+    "(Dashu.Gen.float_ilogExact) and proved equal to the model's ilogExact for every base >= 2 and every Word n (ilog_exact_regenerated): a fast "
+    "path / changed comparison in the source breaks Props/C08 or fails the extraction closed; the precision decision of FBig::with_base "
+    "(float/src/convert.rs: which ilog_exact call is down / up, `> 1`, saturating_mul(down), / up, BASE.pow(p).ilog(NewB)) is regenerated "
+    "(Dashu.Gen.float_withBasePrecision) and proved equal to the model's withBasePrecision (with_base_precision_regenerated)",
     "with_base between power-related bases at source precisions around usize::MAX / n: the model saturates `precision * n` at usize::MAX like the "
     "code does since fix 38e3075 (saturating_mul)",
     "with_base::<NewB>() (and its call forms to_decimal / to_binary) = with_base_and_precision at the derived precision: contract, <= q+1 digits, and "
@@ -881,7 +941,10 @@ FRONTIER = [
     "requires an error for a literal whose exact value needs an exponent outside isize and the exact text for a shown exponent outside isize; the real "
     "code agrees on every driven case since fixes 5997fe0 (parser: i128 exponent, InvalidDigit when the normalized exponent does not fit) and a7e84fd "
     "(scientific formatter: shown exponent in i128). Display with |exponent| "
-    "beyond ~5000 is not driven (the text has |exponent| characters); with_base at |exponent| > 2^60 is not driven",
+    "beyond ~5000 is not driven (the text has |exponent| characters); with_base at |exponent| > 2^60 is not driven: from B = NewB^n the exponent is "
+    "multiplied by n in isize (`repr.exponent * n as isize`, float/src/convert.rs:558) and for |exponent| > isize::MAX / n the value has NO Repr<NewB> "
+    "(observed in round 6: debug builds panic `attempt to multiply with overflow`, release builds wrap to a wrong exponent silently; no result can be "
+    "right, so it is reported as an observation, not as a finding entry — the model answers the unbounded exponent)",
     "Scientific text padded with FILL characters (a width without the zero flag, or the zero flag with left / centre alignment) does not parse "
     "back in general and is not claimed; Display text padded with fill characters likewise",
     "Context::convert_base large-exponent branch (ln/exp at doubled precision): not mirrored; every case judged by exact rational arithmetic "
@@ -907,7 +970,8 @@ THEOREMS = ["Dashu.Props.C08." + t for t in [
     "scientific_print_parse", "scientific_markers_accepted", "lower_upper_exp_parse_back", "radix_trait_parse_back",
     "round_int_meets_mode_spec", "mode_spec_unique", "display_spec_rounds_like_model", "with_precision_digits",
     "scale_markers_regenerated", "fmt_trait_table_regenerated", "convert_base_same_base",
-    "padded_scientific_print_parse", "with_base_contract", "display_text_is_spec", "display_text_is_spec_normalised"]]
+    "padded_scientific_print_parse", "with_base_contract", "display_text_is_spec", "display_text_is_spec_normalised",
+    "ilog_exact_regenerated", "with_base_precision_regenerated"]]
 EXPLANATION = ("Partial. Proved for all bases, modes, precisions and operands: the three exact-evaluation branches of base conversion "
                "round the exact value (contract of C03: exact iff representable, else < 1 ulp on the mode's side, truthful flag); "
                "the documented with_base precision; exactness of the f32/f64 import; the literal parser equals the documented grammar on every byte "
@@ -921,7 +985,7 @@ EXPLANATION = ("Partial. Proved for all bases, modes, precisions and operands: t
                "(same base) to exactly it — to the printed number itself without a precision; the executable rounding specification (roundInt) "
                "used on the specification side meets the relational one (ModeSpec), which is single-valued; the Display text equals the text of the "
                "executable specification displaySpec; the marker tables of parser and "
-               "formatter are regenerated from the source. "
+               "formatter, ilog_exact and the precision decision of with_base are regenerated from the source and proved equal to the model. "
                "Debug and the printing of infinities are mirrored models compared on every run with the "
                "real code; the ln/exp conversion branch is judged per case by exact arithmetic.")
 ASSUMPTIONS = ["exponents are unbounded integers in the model (isize in the code): results are claimed where no exponent leaves the isize range",
@@ -946,13 +1010,15 @@ LEVEL_TEXT = ("PARTIAL. Machine-checked Lean 4 theorems, for every base >= 2, mo
               "specification side) satisfies ModeSpec, ModeSpec is single-valued, so displaySpec rounds to the integer the model prints, and the whole Display text (no width) "
               "equals the displaySpec text; the "
               "scale-marker table of the parser and the marker table of the formatting traits are regenerated from the source and proved equal to "
-              "the model's (Tie A). "
+              "the model's, likewise ilog_exact (float/src/utils.rs) and the precision decision of FBig::with_base (Tie A). "
               "Not proved but executed against the real code on every run: Debug, the printing of infinities (all traits). The large-exponent branch (ln/exp) is checked per case with exact "
               "rational arithmetic; it violates the contract on representable inputs and at small precisions (recorded findings). The theorems are about "
               "unbounded exponents; exponent arithmetic at the isize limits (parser, scientific formatter) is compared with the real code on every run "
-              "(directed classes at isize::MIN/MAX).")
+              "(directed classes at isize::MIN/MAX). Between two bases near the top of the Word range (2^63+1 and 2, 2^32+1 and 2^32, ...) ilog_exact overflows a Word "
+              "(debug panic, release wrap / endless loop): recorded finding, patch proposed; the model answers what the property requires.")
 LEVEL_NOTE = ("Trusted: Lean kernel; axioms propext/Classical.choice/Quot.sound; the correspondence harness, its exact-arithmetic judge "
               "(dashu-ratio) and the generators (sampling); builder-float's rounding model/theorems (C03, C10) and builder-nt's log2 "
               "replica (C12) are reused. Twelve defects found by this check; ten were repaired in /repo (`fixed:` lines of known_findings.jsonl, patches in "
-              "/verif/proposed_fixes/c08-*.diff) and the model describes the repaired code; the two findings about the ln/exp branch remain recorded.")
+              "/verif/proposed_fixes/c08-*.diff) and the model describes the repaired code; the two findings about the ln/exp branch remain recorded, and one found in round 6: "
+              "ilog_exact overflows a Word for base pairs near the top of the Word range (proposed_fixes/c08-ilog-exact-overflow.diff).")
 TECHNIQUE = "Lean 4 model + theorems, differential correspondence model vs real code, exact-arithmetic judge for the ln/exp branch"
